@@ -21,6 +21,7 @@ DG == Cc("")
 B(tps) == [t |-> "bgp", tps |-> tps]
 J(ps) == [t |-> "join", ps |-> ps]
 Gr(n, p) == [t |-> "graph", name |-> n, p |-> p]
+U(ps) == [t |-> "union", ps |-> ps]
 Unit == [t |-> "unit"]
 
 xP1y == <<Vv("x"), Cc(P1), Vv("y")>>
@@ -42,6 +43,8 @@ MenuSeq == <<
   Op("insert_where", <<>>, << <<Vv("x"), Cc(P2), Vv("y"), Vv("y")>> >>, WXY),                               \* graph from a variable (literal: not produced)
   Op("delete_where", << <<Vv("x"), Cc(P2), Vv("y"), Cc(G1)>> >>, <<>>, J(<<Gr(Cc(G1), J(<<B(<<xP2y>>)>>))>>)),
   Op("delete_insert_where", << <<Vv("x"), Cc(P1), Vv("y"), DG>> >>, << <<Vv("x"), Cc(P2), Vv("z"), DG>> >>, J(<<B(<<xP1y, yP1z>>)>>)),
+  \* the same solution twice (both UNION branches bind the same values): two occurrences, two fresh nodes
+  Op("insert_where", <<>>, << <<Vv("x"), Cc(P2), Bb("x"), DG>> >>, J(<<U(<<J(<<B(<<xP1y>>)>>), J(<<B(<<xP1y>>)>>)>>)>>)),
   [Op("insert_where", <<>>, << <<Vv("x"), Cc(P2), Vv("y"), DG>> >>, WXY) EXCEPT !.fails = TRUE],
   [Op("delete_insert_where", << <<Vv("x"), Cc(P1), Vv("y"), DG>> >>, << <<Vv("x"), Cc(P2), Vv("y"), DG>> >>, WXY) EXCEPT !.fails = TRUE]
 >>
